@@ -108,6 +108,35 @@ def opVmatLoop : J.Op := fun j => do
         cell (fun s t => S.fourWayLoop n f2 m2 s t) f1 m1) ix) ix) ix) ix
   | _ => J.fail s!"unknown scheme {scheme}"
 
+/-- the genic classes through the literal loop transcription (`numpy.empty` + the two assignments per pair);
+    a cell that the loops never write is reported as the string "unwritten" -/
+def opGenicLoop : J.Op := fun j => do
+  let q ← readSetup j
+  let ploidy ← J.fieldD j "ploidy" J.rat 2
+  let scheme ← J.fieldD j "scheme" J.str "two"
+  let n := q.ntaxa
+  let ix := List.range n
+  let cell (M : Nat → List ((Nat × Nat) × Rat)) (f m : Nat) : Json :=
+    J.ofList (fun t => match findAt (M t) (f, m) with
+                       | some v => J.ofRat v
+                       | none => J.ofStr "unwritten") (List.range q.ntrait)
+  match scheme with
+  | "two" | "dihybrid" =>
+      pure <| J.ofList (fun f => J.ofList (fun m => cell (fun t => q.S.genic2Loop n q.nvrnt ploidy t) f m) ix) ix
+  | "three" => pure <| J.ofList (fun r => J.ofList (fun f => J.ofList (fun m =>
+        cell (fun t => q.S.genic3Loop n q.nvrnt ploidy r t) f m) ix) ix) ix
+  | "four" => pure <| J.ofList (fun f2 => J.ofList (fun m2 => J.ofList (fun f1 => J.ofList (fun m1 =>
+        cell (fun t => q.S.genic4Loop n q.nvrnt ploidy f2 m2 t) f1 m1) ix) ix) ix) ix
+  | _ => J.fail s!"unknown scheme {scheme}"
+
+/-- `_calc_xmap(ntaxa, nparent, unique_parents)` -/
+def opXmap : J.Op := fun j => do
+  let n ← J.field j "ntaxa" J.nat
+  let k ← J.field j "nparent" J.nat
+  let u ← J.field j "unique" J.bool
+  if k == 0 then J.fail "nparent = 0" else
+  pure <| J.ofList (fun l => J.ofList J.ofNat l) (calcXmap n k u)
+
 def opUtil : J.Op := fun j => do
   let fn ← J.field j "fn" J.str
   let r ← J.field j "r" (J.list J.rat)
@@ -176,6 +205,7 @@ def opValidate : J.Op := fun j => do
 
 def ops : List (String × J.Op) :=
   [("c12.vmat", opVmat), ("c12.vmat_loop", opVmatLoop), ("c12.genic", opGenic), ("c12.util", opUtil), ("c12.chunks", opChunks),
-   ("c12.enum", opEnum), ("c12.spec_enum", opSpecEnum), ("c12.validate", opValidate)]
+   ("c12.enum", opEnum), ("c12.spec_enum", opSpecEnum), ("c12.validate", opValidate),
+   ("c12.genic_loop", opGenicLoop), ("c12.xmap", opXmap)]
 
 end Drv.C12
